@@ -198,6 +198,16 @@ func cornerTypes() []*Recipe {
 		rStruct([]string{"a"}, []int{1}, opt), rStruct([]string{"a"}, []int{0}, rcp("Undef")), rStruct([]string{"a"}, []int{2}, rcp("Undef")),
 		rStruct([]string{"Aa", "b_c", "d1"}, []int{0, 1, 2}, intT, strT, anyT),
 		rStruct([]string{"a"}, []int{0}, rStruct([]string{"b"}, []int{1}, rArr(intT, 0, 3))))
+	// a Struct value that accepts undef and holds a Tuple whose `size != nil` flag changes on the way through the text (a Tuple without
+	// slots is built without a size and prints as Tuple[0, 0]; a Tuple sized by its own length prints without the size): the key of the
+	// reparsed Struct is decided on the reparsed value (thorough tier seed 1, cases_types_14 case 107: the oracle lookup of the tie compared the flag)
+	for _, tp := range []*Recipe{rTup(), rTupSz(0, 0), rTupSz(1, 1, intT), rTup(rTup()), rTup(rTupSz(1, 1, strT))} {
+		for _, kind := range []int{0, 1, 2} {
+			out = append(out, rStruct([]string{"c"}, []int{kind}, rVar(rW("Optional", strT), tp)), rStruct([]string{"c"}, []int{kind}, rW("Optional", tp)),
+				rStruct([]string{"a", "b", "c"}, []int{1, 2, kind}, rInt(5, 5), &Recipe{K: "Pattern", Strs: []string{".*"}},
+					rVar(rW("Optional", strT), &Recipe{K: "Float", FLo: 2.5, FHi: 5.5}, tp)))
+		}
+	}
 	// wrappers, variants, nesting
 	for _, w := range []string{"Optional", "NotUndef", "Type", "Sensitive", "Iterable", "Iterator"} {
 		for _, e := range []*Recipe{anyT, intT, strT, rcp("Undef"), rInt(0, 5), rEnum(false, "a", "b"), rW("Optional", intT), rW("Type", intT),
